@@ -234,6 +234,8 @@ fn entry_alphabet(thorough: bool) -> Vec<AbsEnv> {
     v.push(mk(&[(Sc::All, Beh::Override, b"\xff\xfe", b"\x00\xff"), (p(), Beh::Override, b"\xff\xfe", b"\xfe")]));
     v.push(mk(&[(Sc::All, Beh::Default, b"A", b""), (Sc::Build, Beh::Default, b"A", b""), (Sc::Launch, Beh::Default, b"A", b"")]));
     v.push(mk(&[(Sc::Launch, Beh::Override, b"p", b"var-named-like-process"), (p(), Beh::Override, b"X", b"1")]));
+    // process entries that are byte-identical to launch entries (they are separate files all the same)
+    v.push(mk(&[(Sc::Launch, Beh::Override, b"A", b"same"), (p(), Beh::Override, b"A", b"same"), (Sc::Launch, Beh::Default, b"B", b"d"), (p(), Beh::Default, b"B", b"d"), (q(), Beh::Override, b"A", b"same")]));
     // values longer than any buffer or argument-length limit (2^17 + 1 bytes), ending in a distinct byte
     let long: Vec<u8> = std::iter::repeat(b'v').take(1 << 17).chain(std::iter::once(b'!')).collect();
     v.push(mk(&[(Sc::All, Beh::Override, b"LONG", &long), (p(), Beh::Append, b"LONG", &long)]));
@@ -321,9 +323,13 @@ fn read_side(thorough: bool, rep: &mut Reporter) -> (u64, u64) {
             }
         }
     }
+    // every case twice: env files as regular files, and the first file of every directory as a
+    // symbolic link to a file stored elsewhere (a value shared between directories)
+    let cases: Vec<(bool, Vec<(Sc, Vec<usize>)>)> = cases.iter().cloned().map(|c| (false, c)).chain(cases.iter().filter(|c| c.iter().all(|(_, s)| s.len() <= 1)).cloned().map(|c| (true, c))).collect();
     let results: Vec<Option<(String, String, serde_json::Value)>> = cases
         .par_iter()
-        .map(|case| {
+        .map(|(linked, case)| {
+            let linked = *linked;
             let sc = Scratch::new("c03r");
             let dir = sc.path.join("layer");
             std::fs::create_dir(&dir).unwrap();
@@ -335,13 +341,25 @@ fn read_side(thorough: bool, rep: &mut Reporter) -> (u64, u64) {
                 let mut files = Vec::new();
                 for i in subset {
                     let content = format!("{}:{}", loc.dir(), fnames[*i]).into_bytes();
-                    std::fs::write(d.join(<std::ffi::OsStr as std::os::unix::ffi::OsStrExt>::from_bytes(&raw(fnames[*i]))), &content).unwrap();
+                    let fpath = d.join(<std::ffi::OsStr as std::os::unix::ffi::OsStrExt>::from_bytes(&raw(fnames[*i])));
+                    if linked {
+                        let store = sc.path.join("values");
+                        std::fs::create_dir_all(&store).unwrap();
+                        let target = store.join(format!("v{}-{}", desc.len(), i));
+                        std::fs::write(&target, &content).unwrap();
+                        std::os::unix::fs::symlink(&target, &fpath).unwrap();
+                    } else {
+                        std::fs::write(&fpath, &content).unwrap();
+                    }
                     files.push((fnames[*i].to_string(), content));
                     desc.push(format!("{}/{}", loc.dir(), fnames[*i]));
                 }
                 ref_read(&files, loc, &mut abs);
             }
-            let replay = json!({"kind": "read", "files": desc});
+            let replay = json!({"kind": "read", "files": desc, "linked": linked});
+            if linked {
+                desc.push("(each a symlink to a file elsewhere)".to_string());
+            }
             let p = if case.iter().any(|(l, _)| matches!(l, Sc::Process(_))) { "-process-dir" } else { "" };
             match LayerEnv::read_from_layer_dir(&dir) {
                 Err(e) => Some((format!("read-failed{p}"), format!("reading a layer with env files {desc:?} failed: {e}"), replay)),
@@ -369,7 +387,7 @@ fn read_side(thorough: bool, rep: &mut Reporter) -> (u64, u64) {
     let n = cases.len() as u64;
     let mut nontrivial = 0;
     for c in &cases {
-        if c.iter().any(|(_, s)| !s.is_empty()) {
+        if c.1.iter().any(|(_, s)| !s.is_empty()) {
             nontrivial += 1;
         }
     }
